@@ -53,6 +53,10 @@ Proof.
   intros a b H. unfold view in H. injection H as _ Hp Hb _ Hi. unfold sentence_decode. now rewrite Hp, Hb, Hi.
 Qed.
 
+(* what AISSentence.decode() returns, as a function of payload and bits alone (message id = their first six bits) *)
+Definition decode_content (payload : bytes) (b : bits) : M (cls * list value) :=
+  if negb (nonempty payload) then Raise (Lib MissingPayloadException) else decode_bits_as (get_int b 0 6 false) b.
+
 Lemma msg_view_perm : forall fs fs', Permutation fs fs' -> NoDup (map a_frag_num fs) -> msg_view fs = msg_view fs'.
 Proof. intros fs fs' P N. unfold msg_view. now rewrite (sort_perm fs fs' P N). Qed.
 
@@ -138,6 +142,17 @@ Proof.
   split; [reflexivity|].
   split; [exact (Forall_inv (cm_seq _ _ _ C))|]. split; [exact (Forall_inv (cm_chan _ _ _ C))|].
   cbn [bind]. unfold message_of. destruct (sentence_decode _); reflexivity.
+Qed.
+
+(* decode( *parts ) of the lines of a complete message, in any order, is the decoding of its payload and bits
+   concatenated in fragment-number order *)
+Theorem decode_api_content : forall parts fs sq ch, Forall2 line_ais parts fs -> complete_message sq ch fs ->
+  mmap snd (decode_api false parts) =
+  decode_content (flat_map a_payload (sort_by_frag fs)) (flat_map a_bits (sort_by_frag fs)).
+Proof.
+  intros parts fs sq ch H C. destruct (decode_api_complete parts fs sq ch H C) as [nmea [_ [Hv [_ [_ Hd]]]]].
+  unfold message_of in Hd. rewrite Hd. unfold msg_view, view in Hv. injection Hv as _ Hp Hb _ Hi.
+  unfold sentence_decode, decode_content. now rewrite Hp, Hb, Hi.
 Qed.
 
 (* ================================================================ list helpers *)
@@ -342,6 +357,9 @@ Definition id_ok (a : ais_sentence) : Prop := a_ais_id a = get_int (a_bits a) 0 
 Lemma id_ok_attach : forall w a, id_ok a -> id_ok (attach w a).
 Proof. intros [g|] a H; exact H. Qed.
 
+Lemma sentence_decode_content : forall a, id_ok a -> sentence_decode a = decode_content (a_payload a) (a_bits a).
+Proof. intros a H. unfold sentence_decode, decode_content. now rewrite H. Qed.
+
 Lemma buffer_step_id_ok : forall b msg b' full, buffer_step b msg = Ok (b', Some full) -> id_ok full.
 Proof.
   intros b msg b' full H. unfold buffer_step in H.
@@ -434,6 +452,42 @@ Section Ingest.
     specialize (IH (ast', tq')). destruct (rd_run uni step use_tbq (ast', tq') rest) as [r fin]. cbn [fst] in *.
     constructor; [|exact IH]. cbn [fst]. rewrite Hs in Es. apply (generic_step_id_ok hs ast p t ast' outs Es).
     intros a Ha. subst p. exact (proj1 (produce_ais_id l a Ha)).
+  Qed.
+
+  (* whatever a reader delivers, from ANY line sequence: its decode() is the decoding of its own payload and bits *)
+  Theorem delivered_decode_content : forall step use_tbq, is_reader_loop step -> forall lines st o d,
+    In o (fst (rd_run uni step use_tbq st lines)) -> In d (fst o) ->
+    sentence_decode d = decode_content (a_payload d) (a_bits d).
+  Proof.
+    intros step use_tbq Hl lines st o d Ho Hd. apply sentence_decode_content.
+    pose proof (rd_run_id_ok step use_tbq Hl lines st) as Hall. rewrite Forall_forall in Hall. specialize (Hall o Ho).
+    rewrite Forall_forall in Hall. exact (Hall d Hd).
+  Qed.
+
+  (* lines that parse to a well-formed C03 schedule (any number of messages, any interleaving and arrival order, slots
+     reused after completion, incomplete sets, wrappers, skipped lines): the reader delivers, line by line, what the C03
+     specification prescribes -- payload and bits of every delivery are the fragment-ordered concatenations --, and every
+     delivery decodes by that content *)
+  Theorem wf_schedule_decode : forall step use_tbq ls sch, is_reader_loop step -> WF sch ->
+    rd_inputs uni use_tbq [] ls = schedule_lines sch ->
+    exists outs st,
+      rd_run uni step use_tbq rd_init ls = (outs, Ok st) /\
+      map (map delivery_of) (map fst outs) = spec_deliveries sch /\
+      Forall (Forall (fun d => sentence_decode d = decode_content (a_payload d) (a_bits d))) (map fst outs).
+  Proof.
+    intros step use_tbq ls sch Hl [W Sk] Hin.
+    destruct (rd_run_total uni step use_tbq ls rd_init Hl rd_inv_init) as [outs [st [Er [_ _]]]].
+    exists outs, st. split; [exact Er|]. split.
+    - pose proof (rd_run_asm_run uni step use_tbq ls asm_init []) as R.
+      change (rd_run uni step use_tbq (asm_init, []) ls) with (rd_run uni step use_tbq rd_init ls) in R. rewrite Er, Hin in R.
+      cbn [fst] in R. rewrite R. destruct Hl as [hs [Hc Hs]]. rewrite (asm_run_ext step (generic_step hs) Hs).
+      assert (Hsk : skips hs).
+      { intros e He. apply Hc. destruct e; try discriminate He; [left|right; right|right; left]; reflexivity. }
+      destruct (run_schedule hs Hsk sch [] [] None W Sk Inv_init) as [outs2 [b2 [w2 [E1 [E2 _]]]]].
+      unfold asm_init. unfold asm_buffer in E1. rewrite E1. exact E2.
+    - apply Forall_forall. intros o Ho. apply in_map_iff in Ho. destruct Ho as [oo [<- Hoo]].
+      apply Forall_forall. intros d Hd. apply (delivered_decode_content step use_tbq Hl ls rd_init oo d); [|exact Hd].
+      rewrite Er. exact Hoo.
   Qed.
 
   (* a message that the loops treat as a single-sentence message: one fragment and no (or zero) sequence id *)
